@@ -360,6 +360,10 @@ class Interp:
         if vartype in ("int", "float", "complex"):
             if isinstance(v, (str, bool)):
                 raise Reject("type", name)
+            if isinstance(v, RefArray):
+                if v.kind == "complex" and vartype != "complex":
+                    raise Reject("type", name)   # a whole complex array is a complex value, too
+                raise X.RefError("a whole array as the initialiser of a scalar is outside the described language")
             k = X.kind_of(v)
             if vartype != "complex" and k == "complex":
                 raise Reject("type", name)       # complex into int/float is refused (C11)
